@@ -208,7 +208,7 @@ def run_program(files, entry="main.ms", mode="run", env=None, cpu=20, merge=Fals
 
 DEFINED = [
     ("assert", ["An explicit assertion failed"]),
-    ("nil", ["unwrap of `nil`", "nil object, looking up", "on a nil", "unwrap a nil", "is nil"]),
+    ("nil", ["unwrap of `nil`", "nil object, looking up", "on a nil", "unwrap a nil", "is nil", "<Nil ", " Nil>"]),
     ("index", ["out of bounds", "key error", "index out of range", "cannot index"]),
     ("zero_div", ["/ by 0", "% by 0", "by zero"]),
     ("overflow", ["operation overflow/underflow", "cannot be made into", "could not fit", "invalid radix",
